@@ -253,6 +253,12 @@ func encodeTop(vc *VC, fn *ssa.Function, d *Decl) []inputVar {
 	bindResults(post, fn, sig, results)
 	pos := posOf(fn, fn.Pos())
 	for _, c := range d.Get("ensures") {
+		if d.Has("assumed-post") {
+			// the postconditions stay assumptions for the callers (as under `trusted`), but the body is still encoded
+			// for the function's other obligations (at-call, at-store, safety, structural)
+			vc.note("ASSUMED on " + vc.fn + ": its postconditions (assumed-post: the body is checked only for its at-call/at-store/safety obligations)")
+			break
+		}
 		f := post.trBool(c.E)
 		vc.oblige("post", c.Label, rg, f, "ensures "+c.Text, fr.props, pos).AltGuards = conds
 	}
